@@ -154,6 +154,12 @@ def eqOpt (a : α) (p : Option α) : Bool := match p with | some q => Cmp.eq a q
 def asRowsT (l : List (α × α × α)) : Except Err (Rows α) :=
   if l.isEmpty then .error Err.indexError else .ok ⟨l.map (·.1), l.map (·.2.1), l.map (·.2.2)⟩
 
+/-- `A[k] += v` on a Python list (IndexError when k is out of range: the translator records the site) -/
+def addAt (l : Vec α) (k : Nat) (v : α) : Vec α := l.mapIdx (fun i a => if i = k then a + v else a)
+
+/-- `for i in range(n): A[i] /= B[i]` -/
+def divPrefix (a b : Vec α) (n : Nat) : Vec α := a.mapIdx (fun i x => if i < n then x / List.getD b i ((0:Nat):α) else x)
+
 /-- `sq[np.isnan(sq)] = 0` -/
 def nanToZero (v : Vec α) : Vec α := v.map (fun x => if Cmp.eq x x then x else ((0:Nat):α))
 
